@@ -459,6 +459,7 @@ SRC_TYPES = ["BD", "11", "BC", "B7", "B1", "A7", "C1"]
 def gen_src(rng, u, primary, creator, srctype=None, refcode=None, ncallouts=None, wordcount=None, reg=None):
     """reg: optional registry model (vf.fixtures) used to aim reason codes at defined messages."""
     t = srctype or (rng.choice(SRC_TYPES[:3]) if rng.random() < 0.7 else rng.choice(SRC_TYPES))
+    own_refcode = refcode is None
     if refcode is None:
         compb = rng.choice(["E5", "8D", "2C", "10", "FX", "FY", "AA"]) if rng.random() < 0.7 else "%02X" % rng.randrange(256)
         reason = "%04X" % rng.randrange(0x10000)
@@ -501,6 +502,8 @@ def gen_src(rng, u, primary, creator, srctype=None, refcode=None, ncallouts=None
     srcver = rng.randrange(256)
     tail = ""
     r = rng.random()
+    if own_refcode and r > 0.95 and refcode[7:8] not in "EFABDC":
+        refcode = refcode[:rng.choice([4, 5, 6, 7, 7])]      # a reference code shorter than eight characters, blank padded
     if r < 0.3:
         tail = " " + u.token(6)
     elif r < 0.36:
